@@ -34,7 +34,8 @@ var geoSites = map[string]map[string][]siteItem{
 			{"keyword", "tinyk", []string{"ADS", "x"}},
 			{"regex", `^x?tiny\.`, nil},
 		},
-		"last": {{"keyword", "zzz", nil}},
+		"last":  {{"keyword", "zzz", nil}},
+		"empty": {}, // an entry without any domain
 	},
 	"c04site": {
 		"tiny": {{"full", "ext.example.com", nil}, {"suffix", "tiny.org", nil}},
@@ -46,6 +47,7 @@ var geoIPs = map[string]map[string][]string{
 		"other": {"192.0.2.0/24", "10.0.0.1/32"},
 		"tiny":  {"10.7.0.0/16", "2001:db8:7::/48", "10.0.0.2/32", "10.9.8.7/24"},
 		"last":  {"203.0.113.0/24"},
+		"empty": {}, // an entry without any prefix
 	},
 	"c04ip": {
 		"tiny": {"10.8.0.0/16"},
@@ -53,7 +55,7 @@ var geoIPs = map[string]map[string][]string{
 }
 
 // order of the entries inside each file (the decoder scans sequentially; the wanted code is never the first)
-var fileOrder = []string{"other", "tiny", "last"}
+var fileOrder = []string{"other", "empty", "tiny", "last"}
 
 func siteType(kind string) geodata.Domain_Type {
 	switch kind {
